@@ -48,6 +48,26 @@ Theorem T03_half_close_eof_last : forall g e k tr s d, (0 <= g)%Z ->
 Proof. exact (fun g e k tr s d Hg H => eof_after_all _ (shape_ok_tables g Hg) e k tr s H d). Qed.
 Print Assumptions T03_half_close_eof_last.
 
+(* The two directions never interfere: steps of different directions commute, and
+   an endpoint shutting down its sending side disables no step of anything else. *)
+Theorem T03_half_close_independent : forall sh s d1 a1 s1 d2 a2 s2, d1 <> d2 ->
+  step sh s (LD d1 a1) s1 -> step sh s (LD d2 a2) s2 ->
+  exists s3, step sh s1 (LD d2 a2) s3 /\ step sh s2 (LD d1 a1) s3.
+Proof. exact dir_steps_commute. Qed.
+Print Assumptions T03_half_close_independent.
+
+Theorem T03_half_close_shutdown_disables_nothing : forall sh s d s1 l s2,
+  step sh s (LD d Shutdown) s1 -> step sh s l s2 -> (forall a, l <> LD d a) -> exists s3, step sh s1 l s3.
+Proof. exact shutdown_disables_nothing. Qed.
+Print Assumptions T03_half_close_shutdown_disables_nothing.
+
+(* ... but only until the forced close: one grace period after the first copier
+   finished the other direction is cut, with bytes outstanding and a source that
+   never shut down (known finding half-closed-tunnel-cut-after-grace-period). *)
+Theorem T03_half_close_refuted_after_grace : grace_cut_ok = true.
+Proof. exact ob_grace_cut_witness. Qed.
+Print Assumptions T03_half_close_refuted_after_grace.
+
 (* When both endpoints have shut down and the proxy has nothing left to do, both connections are closed. *)
 Theorem T03_both_closed : forall g e k tr s, (0 <= g)%Z ->
   steps (tables_shape g) (init e [] k) tr s ->
